@@ -10,11 +10,14 @@ Lemma filter_filter {A} (f g : A -> bool) l : filter f (filter g l) = filter (fu
 Proof. induction l as [|a l IH]; simpl; [reflexivity|]. destruct (g a); simpl; [destruct (f a); rewrite IH; reflexivity|exact IH]. Qed.
 
 Section NS.
-Variables (courses : list course) (parts : list participant) (pick : node -> list bool -> assignment -> list node).
+Variables (courses : list course) (parts : list participant) (rgate : node -> assignment -> out (option (list node))) (pick : node -> list bool -> assignment -> list node).
 Notation np := (np parts). Notation nc := (nc courses). Notation m_ := (m_ courses). Notation n_ := (n_ courses parts).
 Notation crs := (crs courses). Notation base := (base courses). Notation course_map := (course_map courses).
 
-Theorem run_node_never_stuck nd : run courses parts pick nd <> Panic 4.
+(* the room stage has its own panic sites (numbered from 6); site 4 is the failed unwrap of the matching routine *)
+Hypothesis Hrg4 : forall nd a, rgate nd a <> Panic 4.
+
+Theorem run_node_never_stuck nd : run courses parts rgate pick nd <> Panic 4.
 Proof.
   unfold run, run_node.
   set (sx1 := skip_x1 courses parts nd). set (nsx := countB sx1). set (sy := skip_y courses nd). set (nsy := countB sy).
@@ -71,6 +74,8 @@ Proof.
   destruct (hall_from_counts (dummy_x courses parts) my sx sy n_ m_ Hsq ltac:(rewrite HR; lia)) as (pm & Hpm).
   pose proof (hungarian_correct (adjacency courses parts) (dummy_x courses parts) my sx sy n_ m_ pm Hpm) as HC.
   destruct (hungarian (adjacency courses parts) (dummy_x courses parts) my sx sy n_ m_) as [[[[mm ms] lx] ly]| |]; [|destruct HC|discriminate].
-  destruct (existsb _ _ || existsb _ _); discriminate.
+  destruct (rgate nd _) as [[bs|]|site|] eqn:Erg; try discriminate.
+  - destruct (negb _ && existsb _ (seq 0 nc)); [discriminate|]. destruct (existsb _ _ || existsb _ _); discriminate.
+  - intros H. inversion H; subst site. exact (Hrg4 _ _ Erg).
 Qed.
 End NS.
